@@ -1,6 +1,6 @@
 SPECIFICATION Spec
 CONSTANTS
-  Depth = 2
+  Depth = 1
   MaxMut = 1
   Mode = "base"
   ModelIds = {"prims", "enums", "hier", "mixin", "rec", "param_8_32", "param_22_15"}
